@@ -106,6 +106,10 @@ def _analyse(project: Project, fi: FunctionInfo, f) -> List[dict]:
             return is_inherited(e.value, depth + 1)
         if isinstance(e, ast.Attribute) and e.attr == "T":
             return is_inherited(e.value, depth + 1)
+        if isinstance(e, ast.Attribute) and isinstance(e.value, ast.Name) and e.value.id in array_params \
+                and e.attr not in ("shape", "size", "ndim", "dtype"):
+            # an array held by an object the caller passed (`pl.values`): its dtype is the caller's as well
+            return True
         if isinstance(e, ast.Call):
             t = res(e.func)
             if t in KEEP_DTYPE_FUNCS | LIKE_FUNCS and e.args and not _has_dtype(e):
